@@ -364,7 +364,10 @@ fn gen_medium(rng: &mut Rng) -> Medium {
     let m = gen_medium_structured(rng);
     // half of the positional media have no structure at all
     let u = rng.chance(1, 2);
-    Medium { untyped: u && m.framing == Framing::Positional, ..m }
+    // and half of the structured ones show where a record ends
+    let c = rng.chance(1, 2);
+    let untyped = u && m.framing == Framing::Positional;
+    Medium { untyped, clean_end: c && m.framing == Framing::Positional && !untyped, ..m }
 }
 
 fn gen_medium_structured(rng: &mut Rng) -> Medium {
@@ -382,6 +385,7 @@ fn gen_medium_structured(rng: &mut Rng) -> Medium {
         filter_fields: rng.chance(1, 6),
         check_names: rng.chance(1, 5),
         untyped: false,
+        clean_end: false,
     }
 }
 
@@ -657,6 +661,7 @@ pub fn sweep_plans(reg: &[TypeEntry]) -> Vec<Plan> {
                     filter_fields: newtype == NewtypeMode::Wrapped && fi == 0,
                     check_names: newtype == NewtypeMode::Wrapped,
                     untyped: false,
+                    clean_end: false,
                 };
                 let base = Plan { ty: e.name.clone(), gen: gen.clone(), patch: None, medium, wfaults: vec![], rfaults: vec![], retry: false, in_place: false, null_field: None };
                 let p = &e.probes[probe_index(&medium)];
@@ -723,6 +728,26 @@ pub fn sweep_plans(reg: &[TypeEntry]) -> Vec<Plan> {
         }
         if !e.is_dec {
             continue;
+        }
+        // a positional record that ends early (an array with one, two or no elements)
+        for hr in [true, false] {
+            let medium = Medium { framing: Framing::Positional, clean_end: true, human_readable: hr, ..Medium::DEFAULT };
+            for keep in 0..3u8 {
+                for in_place in [false, true] {
+                    let q = Plan {
+                        ty: e.name.clone(),
+                        gen: gen.clone(),
+                        patch: None,
+                        medium,
+                        wfaults: vec![],
+                        rfaults: vec![RFault::Drop { path: vec![], idx: (keep..3).collect() }],
+                        retry: false,
+                        in_place,
+                        null_field: None,
+                    };
+                    out.push(q);
+                }
+            }
         }
         // clause (c): every arrangement of every subset of the three fields, with and without an
         // unknown entry at every position, through every key form, on both keyed framings
@@ -972,6 +997,7 @@ pub fn shrink_candidates(p: &Plan, reg: &[TypeEntry]) -> Vec<Plan> {
     knob!(filter_fields);
     knob!(check_names);
     knob!(untyped);
+    knob!(clean_end);
     if p.medium.framing == Framing::KeyedLenPrefixed {
         let mut q = p.clone();
         q.medium.framing = Framing::KeyedSelfDelim;
